@@ -7,6 +7,8 @@ import Pcore.Proofs.FormatFloat
 import Pcore.Generated.FormatLetters
 import Pcore.Proofs.FormatMerge
 import Pcore.Proofs.FormatKeyLat
+import Pcore.Proofs.FormatXEmbed
+import Pcore.Generated.FormatLettersX
 /-!
 # C20 — String formatting is total and faithful to the format directive
 
@@ -67,6 +69,19 @@ Full statement / proved / missing
                          for every FloatIO (whatever digit strings fmt returns): padNumber's placement of blanks and
                          zeros, the restored fraction keeps the printed text and does not depend on the sign, the width
                          is reached by every letter (assuming only that fmt pads its own output: `IOWidth`).
+* EVERY VALUE KIND (`Model/FormatX.lean`: SemVer, SemVerRange, URI, Timespan, Timestamp, Sensitive, Type values, object instances
+  beside the ten kinds above; format maps over ANY system of key types `KeySys κ`), section "the extended model" at the end:
+  `C20_x_letters` (the regenerated table of all 18 kinds: handled = documented = what the model formats, ApplyStringFlags called
+  exactly where the model applies the string flags), `C20_x_total` / `C20_x_total_map` (text or reported, no Go fault, any key
+  system), `C20_x_unsupported_iff` (reported unsupported ⇔ letter outside the regenerated documented set, every kind that is not
+  a container), `C20_x_unsupported_array/hash/obj`, `C20_x_refines` (on the ten kinds of Format.lean under the 16 default keys
+  the extended model IS `fmtVal`: every theorem above is a theorem about the extended model on that fragment),
+  `C20_x_array_rec` / `C20_x_hash_rec` (structural recursion: what ToString2 writes is arrayAssemble / hashAssemble of the element
+  renderings under the element context, alt or not, any key system), `C20_x_array` / `C20_x_hash` / `C20_x_obj` (non-alt: delimiters
+  around the separator-joined element renderings; an object instance is its type name and its init hash between `(` and `)`),
+  `C20_x_typ` (a Type is its name and its parameters formatted as an Array under the same map), `C20_x_width_partial` (width reached
+  wherever the code applies the string flags: SemVer / URI `s`, Type `s p`).  The full width statement `C20_x_width_full` is FALSE:
+  `C20_x_width_fails` (known finding C20-width-ignored: `%20p` of a SemVer, any width on a SemVerRange, Timespan, Timestamp, Sensitive).
 * missing: the digits of `%e %f %g %a` (fmt/strconv float formatting is a parameter `FloatIO`; only the dispatch,
   the format string handed over, floatGFormat's fraction restoration and padNumber are modelled and compared);
   NaN/±Inf (not instances of Float in pcore: no Float format entry applies to them).
@@ -652,5 +667,229 @@ example : (getFormat (contextMap [(.float, .mk (simpleFmt 'e') none), (.scalar, 
     element formats beside its own: strings stay quoted (`%p`), integers are hexadecimal -/
 example : format io0 (contextMap [(.arr, .mk (simpleFmt 'a') (some [(.int, .mk (simpleFmt 'x') none)]))])
     (.array [.str ['a'], .int 255]) = .text "['a', ff]".toList := by decide +kernel
+
+/-! ## the extended model: every value kind with a ToString of its own, format maps over any system of key types
+    (`Pcore/Model/FormatX.lean`; op `fmtx`) -/
+
+/-- the regenerated table over all 18 kinds: per kind, the letters whose arm formats = the literal handed to UnsupportedFormat =
+    the letters the model formats; ApplyStringFlags is called exactly under the letters where the model applies the string flags -/
+theorem C20_x_letters : XLettersOK formatLettersX := lettersOKXb_sound formatLettersX (by decide +kernel)
+
+theorem allGoOKG_single {κ : Type} (f : Fmt) (h : GoOK f) (k : κ) : AllGoOKG [(k, GTree.mk f none)] := by
+  intro g hg
+  cases hg
+  rename_i k' t ht hmem
+  simp at hmem
+  obtain ⟨rfl, rfl⟩ := hmem
+  cases ht
+  exact h
+
+/-- **totality, every kind, any key system**: formatting under a format map of any depth never reaches a Go fault / `%!` marker -/
+theorem C20_x_total_map {κ : Type} (ks : KeySys κ) (io : FloatIO) (m : GMap κ) (v : XVal) (h : AllGoOKG m) :
+    (∃ s, formatX ks io m v = .text s) ∨ (∃ c, formatX ks io m v = .reported c) := by
+  have := noFaultX ks io v m Ind.default h
+  unfold formatX
+  cases hr : fmtX ks io m Ind.default v with
+  | text s => exact Or.inl ⟨s, rfl⟩
+  | reported c => exact Or.inr ⟨c, rfl⟩
+  | fault k => exact absurd hr (this k)
+
+theorem C20_x_total (io : FloatIO) (d : Str) (f : Fmt) (v : XVal) (h : Directive d f) :
+    (∃ s, formatDirectiveX io d v = .text s) ∨ (∃ c, formatDirectiveX io d v = .reported c) := by
+  unfold formatDirectiveX
+  rw [h]
+  exact C20_x_total_map kindKeys io _ v (allGoOKG_single f (C20_directive_go d f h) _)
+
+example : formatDirectiveX io0 "%p".toList (.semver "1.2.3-rc1".toList) = .text "SemVer('1.2.3-rc1')".toList ∧
+    formatDirectiveX io0 "%#-9s|".toList (.uri "a:b".toList) = .reported .invalidSpec ∧
+    formatDirectiveX io0 "%#-9s".toList (.uri "a:b".toList) = .text "'a:b'    ".toList ∧
+    formatDirectiveX io0 "%#s".toList (.semverRange "1.x".toList ">=1.0.0 <2.0.0".toList) = .text ">=1.0.0 <2.0.0".toList ∧
+    formatDirectiveX io0 "%d".toList (.tspan 90061500000000) = .text "1-01:01:01.5".toList ∧
+    formatDirectiveX io0 "%x".toList (.sensitive (.int 5)) = .text "Sensitive [value redacted]".toList ∧
+    formatDirectiveX io0 "%d".toList (.semver "1.0.0".toList) = .reported .unsupported := by decide +kernel
+
+/-- a value that is not a container (and not a Type with parameters) raises only the unsupported-format error, or the
+    documented failure of `%s` on a Binary that is not UTF-8 -/
+theorem C20_x_reported {κ : Type} (ks : KeySys κ) (io : FloatIO) (m : GMap κ) (ind : Ind) (v : XVal) (hv : v.isLeaf = true)
+    (c : Code) (h : fmtX ks io m ind v = .reported c) :
+    c = .unsupported ∨ (c = .failure ∧ (getG ks m v).f.letter = 's' ∧ ∃ bs, v = .binary bs none) := by
+  rcases fmtX_reported_leaf ks io m ind v hv c h with h' | h'
+  · exact Or.inl h'.1
+  · exact Or.inr h'
+
+/-- **unsupported-format ⇔ letter outside the documented set**, every kind, the set taken from the regenerated table -/
+theorem C20_x_unsupported_iff {κ : Type} (ks : KeySys κ) (io : FloatIO) (m : GMap κ) (ind : Ind) (v : XVal)
+    (hv : v.isLeaf = true) :
+    fmtX ks io m ind v = .reported .unsupported ↔
+      documentedInX formatLettersX v.kind (getG ks m v).f.letter = false := by
+  rw [documentedInX_eq_acceptsX formatLettersX C20_x_letters]
+  exact fmtX_unsupported_iff ks io m ind v hv
+
+/-- a Type with parameters: its own letter is checked first -/
+theorem C20_x_unsupported_typ {κ : Type} (ks : KeySys κ) (io : FloatIO) (m : GMap κ) (ind : Ind) (name : Str) (ps : List XVal)
+    (hl : documentedInX formatLettersX .typ (getG ks m (.typ name ps)).f.letter = false) :
+    fmtX ks io m ind (.typ name ps) = .reported .unsupported := by
+  rw [documentedInX_eq_acceptsX formatLettersX C20_x_letters] at hl
+  exact fmtX_of_not_accepts ks io m ind (.typ name ps) rfl hl
+
+theorem C20_x_unsupported_array {κ : Type} (ks : KeySys κ) (io : FloatIO) (m : GMap κ) (ind : Ind) (vs : List XVal)
+    (hl : documentedInX formatLettersX .arr (getG ks m (.array vs)).f.letter = false) :
+    fmtX ks io m ind (.array vs) = .reported .unsupported := by
+  rw [documentedInX_eq_acceptsX formatLettersX C20_x_letters] at hl
+  apply fmtX_array_unsupported
+  simp [acceptsX, modelLettersX, modelLetters] at hl
+  simp [isArrayLetter, hl]
+
+theorem C20_x_unsupported_hash {κ : Type} (ks : KeySys κ) (io : FloatIO) (m : GMap κ) (ind : Ind) (es : List XEntry)
+    (hl : documentedInX formatLettersX .hash (getG ks m (.hash es)).f.letter = false) :
+    fmtX ks io m ind (.hash es) = .reported .unsupported := by
+  rw [documentedInX_eq_acceptsX formatLettersX C20_x_letters] at hl
+  simp [acceptsX, modelLettersX, modelLetters] at hl
+  apply fmtX_hash_unsupported
+  · simp [isHashLetter, hl]
+  · exact hl.1
+
+theorem C20_x_unsupported_obj {κ : Type} (ks : KeySys κ) (io : FloatIO) (m : GMap κ) (ind : Ind) (name : Str) (es : List XEntry)
+    (hl : documentedInX formatLettersX .obj (getG ks m (.obj name es)).f.letter = false) :
+    fmtX ks io m ind (.obj name es) = .reported .unsupported := by
+  rw [documentedInX_eq_acceptsX formatLettersX C20_x_letters] at hl
+  simp [acceptsX, modelLettersX] at hl
+  apply fmtX_obj_unsupported
+  · simp [isHashLetter, hl]
+  · exact hl.1
+
+example : documentedInX formatLettersX .semver 'p' = true ∧ documentedInX formatLettersX .semver 'd' = false ∧
+    documentedInX formatLettersX .tspan 'Z' = true ∧ documentedInX formatLettersX .typ 'a' = false ∧
+    documentedInX formatLettersX .obj 'h' = true ∧
+    formatDirectiveX io0 "%a".toList (.typ "Integer".toList [.int 0, .int 9]) = .reported .unsupported ∧
+    formatX kindKeys io0 [(.base .obj, .mk (simpleFmt 'd') none)] (.obj "A".toList []) = .reported .unsupported := by decide +kernel
+
+/-- **the extended model refines the model of Format.lean**: on values of the ten kinds under the same map keyed by the 16
+    default types, both compute the same result — every theorem about `format` / `fmtVal` above holds of the extended model -/
+theorem C20_x_refines (io : FloatIO) (m : FMap) (m' : GMap XKey) (v : Val) (h : MapRel m m') :
+    formatX kindKeys io m' v.x = format io m v := fmtX_embed io v m m' Ind.default h
+
+theorem C20_x_refines_directive (io : FloatIO) (d : Str) (v : Val) : formatDirectiveX io d v.x = formatDirective io d v := by
+  unfold formatDirectiveX formatDirective
+  cases newFormat d with
+  | error c => rfl
+  | ok f => exact C20_x_refines io _ _ v (MapRel.cons .any _ _ [] [] (TreeRel.leaf f) MapRel.nil)
+
+/-- non-vacuity: a map with nested container formats is related to its re-keyed copy -/
+example : MapRel [(.arr, .mk (simpleFmt 'a') (some [(.int, .mk (simpleFmt 'x') none)]))]
+    [(.base .arr, .mk (simpleFmt 'a') (some [(.base .int, .mk (simpleFmt 'x') none)]))] :=
+  MapRel.cons _ _ _ _ _ (TreeRel.node _ _ _ (MapRel.cons _ _ _ _ _ (TreeRel.leaf _) MapRel.nil)) MapRel.nil
+
+/-- the string flags: according to the regenerated table the code calls ApplyStringFlags under exactly the letters where the model does -/
+theorem C20_x_flags_table (k : XKind) (c : Char) (h : documentedInX formatLettersX k c = true) :
+    flaggedInX formatLettersX k c = honoursFlags k c := by
+  rw [documentedInX_eq_acceptsX formatLettersX C20_x_letters] at h
+  exact flaggedInX_eq_honours formatLettersX C20_x_letters k c h
+
+/-- **width, the kinds of the extended model** — wherever the code applies the string flags (SemVer and URI under `s`, a Type
+    under `s` and `p`) the text is at least as wide as requested -/
+theorem C20_x_width_partial (io : FloatIO) (d : Str) (f : Fmt) (v : XVal) (w : Nat) (s : Str) (h : Directive d f)
+    (hk : v.kind = .semver ∨ v.kind = .uri ∨ v.kind = .typ) (hfl : honoursFlags v.kind f.letter = true)
+    (hw : f.width = some w) (hs : formatDirectiveX io d v = .text s) : w ≤ s.length := by
+  unfold formatDirectiveX formatX at hs
+  rw [h] at hs
+  have hg : getG kindKeys [(XKey.base .any, GTree.mk f none)] v = .mk f none := by
+    simp [getG, kindKeys, XKey.accepts]
+  exact fmtX_width_flagged kindKeys io _ Ind.default v w hk (by rw [hg]; exact hfl) (by rw [hg]; exact hw) s hs
+
+example : formatDirectiveX io0 "%-12s".toList (.semver "1.0.0".toList) = .text "1.0.0       ".toList ∧
+    honoursFlags .semver 's' = true ∧
+    formatDirectiveX io0 "%16p".toList (.typ "Integer".toList [.int 0, .int 9]) = .text "   Integer[0, 9]".toList ∧
+    honoursFlags .typ 'p' = true := by decide +kernel
+
+/-- the full statement: every value that is not a container is rendered at least as wide as requested (the float-digit
+    letters excepted as in `C20_width`) -/
+def C20_x_width_full : Prop := ∀ (io : FloatIO) (d : Str) (f : Fmt) (v : XVal) (w : Nat) (s : Str), Directive d f →
+  v.isContainer = false → f.width = some w → isFloatLetter f.letter = false → formatDirectiveX io d v = .text s → w ≤ s.length
+
+/-- known finding C20-width-ignored: `%20p` of a SemVer is `SemVer('1.0.0')`, 15 wide — the `p` arm of SemVer / URI, both arms of
+    SemVerRange and the ToString of Timespan, Timestamp and Sensitive never consult the width -/
+theorem C20_x_width_fails : ¬ C20_x_width_full := by
+  intro h
+  have := h io0 "%20p".toList (parsed "%20p") (.semver "1.0.0".toList) 20 "SemVer('1.0.0')".toList
+    (by decide +kernel) (by decide +kernel) (by decide +kernel) (by decide +kernel) (by decide +kernel)
+  revert this; decide +kernel
+
+example : formatDirectiveX io0 "%30s".toList (.tspan 0) = .text "0-00:00:00.0".toList ∧
+    formatDirectiveX io0 "%30s".toList (.semverRange "1.x".toList "1.x".toList) = .text "1.x".toList ∧
+    honoursFlags .tspan 's' = false ∧ honoursFlags .semverRange 's' = false ∧ honoursFlags .semver 'p' = false := by decide +kernel
+
+/-- **structural recursion, arrays** (alt or not, any key system): what `Array.ToString2` writes is `arrayAssemble` — the
+    delimiters, separators, line breaks and indentation — of the renderings of the elements under the element context (a
+    container element under the same map, any other element under the container formats) -/
+theorem C20_x_array_rec {κ : Type} (ks : KeySys κ) (io : FloatIO) (m : GMap κ) (ind : Ind) (vs : List XVal) (texts : List Str)
+    (hl : isArrayLetter (getG ks m (.array vs)).f.letter = true)
+    (hc : ChildrenTextX ks io m (cfOfG ks (getG ks m (.array vs))) (arrayChildInd (getG ks m (.array vs)).f ind) vs texts) :
+    fmtX ks io m ind (.array vs) = .text (arrayAssemble (getG ks m (.array vs)).f ind (partsOf vs texts)) :=
+  fmtX_array_assemble ks io m ind vs texts hl hc
+
+/-- **structural recursion, hashes** (letters h s p) -/
+theorem C20_x_hash_rec {κ : Type} (ks : KeySys κ) (io : FloatIO) (m : GMap κ) (ind : Ind) (es : List XEntry)
+    (texts : List (Str × Str)) (hl : isHashLetter (getG ks m (.hash es)).f.letter = true)
+    (hc : EntriesTextX ks io m (cfOfG ks (getG ks m (.hash es))) (hashChildInd (getG ks m (.hash es)).f ind) es texts) :
+    fmtX ks io m ind (.hash es) = .text (hashAssemble (getG ks m (.hash es)).f ind texts) :=
+  fmtX_hash_assemble ks io m ind es texts hl hc
+
+/-- **container law, arrays** (non-alt), every element kind, any key system -/
+theorem C20_x_array {κ : Type} (ks : KeySys κ) (io : FloatIO) (m : GMap κ) (ind : Ind) (vs : List XVal) (texts : List Str)
+    (hl : isArrayLetter (getG ks m (.array vs)).f.letter = true) (halt : (getG ks m (.array vs)).f.alt = false)
+    (hind : ind.indenting = false)
+    (hc : ChildrenTextX ks io m (cfOfG ks (getG ks m (.array vs))) (arrayChildInd (getG ks m (.array vs)).f ind) vs texts) :
+    fmtX ks io m ind (.array vs) =
+      .text ((delimPair (getG ks m (.array vs)).f.ldelim '[').1 ++
+        ((getG ks m (.array vs)).f.sep.getD [','] ++ [' ']).intercalate texts ++ (delimPair (getG ks m (.array vs)).f.ldelim '[').2) :=
+  fmtX_array ks io m ind vs texts hl halt hind hc
+
+/-- **container law, hashes** (non-alt, letters h s p) -/
+theorem C20_x_hash {κ : Type} (ks : KeySys κ) (io : FloatIO) (m : GMap κ) (ind : Ind) (es : List XEntry) (texts : List (Str × Str))
+    (hl : isHashLetter (getG ks m (.hash es)).f.letter = true) (halt : (getG ks m (.hash es)).f.alt = false)
+    (hind : ind.indenting = false)
+    (hc : EntriesTextX ks io m (cfOfG ks (getG ks m (.hash es))) (hashChildInd (getG ks m (.hash es)).f ind) es texts) :
+    fmtX ks io m ind (.hash es) =
+      .text ((delimPair (getG ks m (.hash es)).f.ldelim '{').1 ++
+        ((getG ks m (.hash es)).f.sep.getD [','] ++ [' ']).intercalate
+          (texts.map (fun p => p.1 ++ (getG ks m (.hash es)).f.sep2.getD " => ".toList ++ p.2)) ++
+        (delimPair (getG ks m (.hash es)).f.ldelim '{').2) :=
+  fmtX_hash ks io m ind es texts hl halt hind hc
+
+/-- **object instances** (non-alt, letters h s p): the type name, then the init hash between `(` and `)` — whatever delimiter
+    the format gives — its entries formatted as those of a hash -/
+theorem C20_x_obj {κ : Type} (ks : KeySys κ) (io : FloatIO) (m : GMap κ) (ind : Ind) (name : Str) (es : List XEntry)
+    (texts : List (Str × Str))
+    (hl : isHashLetter (getG ks m (.obj name es)).f.letter = true) (halt : (getG ks m (.obj name es)).f.alt = false)
+    (hind : ind.indenting = false)
+    (hc : EntriesTextX ks io m (cfOfG ks (getG ks m (.obj name es))) (hashChildInd (getG ks m (.obj name es)).f ind) es texts) :
+    fmtX ks io m ind (.obj name es) =
+      .text (name ++ (['('] ++
+        ((getG ks m (.obj name es)).f.sep.getD [','] ++ [' ']).intercalate
+          (texts.map (fun p => p.1 ++ (getG ks m (.obj name es)).f.sep2.getD " => ".toList ++ p.2)) ++ [')'])) :=
+  fmtX_obj ks io m ind name es texts hl halt hind hc
+
+/-- **Type values**: the name, then the parameters formatted as an Array under the SAME map (and `ctx.Subsequent()`); `#s` quotes
+    and the string flags apply to the whole text -/
+theorem C20_x_typ {κ : Type} (ks : KeySys κ) (io : FloatIO) (m : GMap κ) (ind : Ind) (name : Str) (p : XVal) (ps : List XVal)
+    (hl : isTypeLetter (getG ks m (.typ name (p :: ps))).f.letter = true) :
+    fmtX ks io m ind (.typ name (p :: ps)) =
+      typeFinish (getG ks m (.typ name (p :: ps))).f name (fmtX ks io m ind.ctxSubsequent (.array (p :: ps))) :=
+  fmtX_typ ks io m ind name p ps hl
+
+/-- non-vacuity: every kind inside containers under the default formats; an object with a nested object and a Struct type in
+    alt mode; a map that formats the parameters of a Type with `<` `>` and `;` -/
+example : formatX kindKeys io0 [] (.array [.semver "1.0.0".toList, .tspan 1500000000, .typ "Integer".toList [.int 0, .int 9],
+      .obj "My::Pair".toList [.mk (.str ['a']) (.int 1), .mk (.str ['b']) (.obj "My::Unit".toList [])], .sensitive .undef]) =
+    .text "[SemVer('1.0.0'), 0-00:00:01.5, Integer[0, 9], My::Pair('a' => 1, 'b' => My::Unit()), Sensitive [value redacted]]".toList := by
+  decide +kernel
+example : formatDirectiveX io0 "%#p".toList (.typ "Struct".toList [.hash [.mk (.str ['a']) (.typ "Integer".toList [])]]) =
+    .text "Struct[\n  {\n    'a' => Integer\n  }]".toList := by decide +kernel
+example : formatX kindKeys io0 [(.base .arr, .mk { simpleFmt 'a' with ldelim := some '<', sep := some [';'] } none)]
+    (.typ "Integer".toList [.int 0, .int 9]) = .text "Integer<0; 9>".toList := by decide +kernel
+example : ChildrenTextX kindKeys io0 [] (defaultCFG .base) (arrayChildInd (simpleFmt 's') Ind.default)
+    [.uri "a:b".toList, .array [.int 2]] ["URI('a:b')".toList, "[2]".toList] := by
+  simp only [ChildrenTextX]; decide +kernel
 
 end Pcore.Format
